@@ -1,0 +1,287 @@
+//go:build verif
+
+// Contracts for the verifier in /verif (govc). Comment-only: no declarations.
+
+package commands
+
+//@ ghost G_lastenc() interface{}
+
+//@ func init
+//@   property C12
+//@   safe
+//@ property C12
+//@ pkginv BadVersion != nil && BadLen != nil && BadIp != nil && BadCommand != nil && BadCodec != nil && BadFrag != nil && BadUser != nil && BadConn != nil && BadServerFull != nil   :sentinels_defined
+//@ pkginv forall k :: 0 <= k && k < len(BadErrors) ==> BadErrors[k] != nil   :error_table_filled
+
+// ---- command recognition: must be safe for every byte string, including the empty one
+//@ func (c Command) IsOfType
+//@   property C12
+//@   safe
+//@   terminates
+//@   pure
+//@   ensures result ==> len(data) > 0                              :match_implies_nonempty
+
+//@ func (c Command) ValidateType
+//@   property C12
+//@   safe
+//@   terminates
+//@   pure
+//@   ensures err == nil ==> len(data) > 0                          :valid_implies_nonempty
+
+//@ func DecodeRequestHeader
+//@   property C12
+//@   safe
+//@   terminates
+//@   pure
+//@   ensures err == nil ==> userId < 1296                          :user_id_in_table_range
+//@   ensures len(remaining) <= len(req)
+
+//@ func EncodeUserId
+//@   property C12
+//@   safe
+//@   terminates
+//@   pure
+//@   ensures len(result) == 2                                       :two_characters
+//@   loop 1 vars u string
+//@   loop 1 invariant len(u) >= 1 && len(u) <= 2
+//@   loop 1 decreases 2 - len(u)
+
+// "^[0-9]{3}" matches only strings of at least three characters (trusted fact about the constant pattern)
+//@ extern (*regexp.Regexp).MatchString (re *regexp.Regexp, s string) (result bool)
+//@   pure
+//@   ensures result && re == Digits ==> len(s) >= 3
+
+// Lower-casing maps every ASCII byte to one byte, so a lower-cased name that ends in "."+domain+"." is at
+// least that long (trusted fact about strings.ToLower on names; multi-byte characters only make it longer).
+//@ go func lowerSuffixLen(data []byte, domain string) bool { return len(data) >= len(domain)+2 }
+
+//@ func StripDomain
+//@   property C12
+//@   safe
+//@   terminates
+//@   callsite strings.HasSuffix#1 (hit bool) assume hit ==> len(data) >= len(domain)+2 "lower-casing maps ASCII bytes one to one, so a name whose lower-cased form ends in .domain. is at least that long"
+//@   loop 1 vars data []byte
+//@   loop 1 decreases len(data)
+
+//@ func ComposeRequest
+//@   property C12
+//@   safe
+//@   requires msg != nil && len(msg.Question) == 1                  :one_question
+
+//@ func (cl Serializer) DecodeDnsRequest
+//@   property C12
+//@   safe
+//@   requires cl.Upstream.Encoder != nil
+//@   ensures err == nil ==> result != nil
+
+//@ func (cl Serializer) DecodeDnsResponseWithParams
+//@   property C12
+//@   safe
+//@   requires msg != nil && downstream != nil
+
+//@ func (cl Serializer) DecodeDnsResponse
+//@   property C12
+//@   safe
+//@   requires msg != nil && cl.Downstream.Encoder != nil
+
+//@ func (cl Serializer) EncodeDnsResponseWithParams
+//@   property C12
+//@   safe
+//@   requires resp != nil && request != nil && downstream != nil && len(request.Question) >= 1
+
+//@ func (cl Serializer) EncodeDnsResponse
+//@   property C12
+//@   safe
+//@   requires resp != nil && request != nil && cl.Downstream.Encoder != nil && len(request.Question) >= 1
+
+// The command table's constructors are closures returning a fresh request / response object.
+//@ extern field:github.com/bokysan/socketace/v2/internal/streams/dns/commands.Command.NewRequest (c *Command) (result Request)
+//@   pure
+//@   ensures result != nil
+//@ extern field:github.com/bokysan/socketace/v2/internal/streams/dns/commands.Command.NewResponse (c *Command) (result Response)
+//@   pure
+//@   ensures result != nil
+
+// ---- interface contracts of the command objects (what the dispatchers rely on)
+//@ iface (github.com/bokysan/socketace/v2/internal/streams/dns/commands.Request).Decode (r Request, e enc.Encoder, request []byte) (err error)
+//@   requires e != nil
+//@   modifies *
+//@ iface (github.com/bokysan/socketace/v2/internal/streams/dns/commands.Response).Decode (r Response, e enc.Encoder, response []byte) (err error)
+//@   requires e != nil
+//@   modifies *
+//@ iface (github.com/bokysan/socketace/v2/internal/streams/dns/commands.Response).Encode (r Response, e enc.Encoder) (result []byte, err error)
+//@   requires e != nil
+//@   modifies G_lastenc()
+//@ iface (github.com/bokysan/socketace/v2/internal/streams/dns/commands.Request).Encode (r Request, e enc.Encoder) (result []byte, err error)
+//@   requires e != nil
+//@   modifies G_lastenc()
+
+// ---- every Decode must be safe for arbitrary bytes (peer-controlled)
+//@ func (vr *PacketRequest) Decode
+//@   property C12
+//@   safe
+//@   requires e != nil
+//@ func (vr *PacketRequest) Encode
+//@   property C12
+//@   safe
+//@   requires e != nil
+//@ func (vr *PacketResponse) Decode
+//@   property C12
+//@   safe
+//@   requires e != nil
+//@ func (vr *PacketResponse) Encode
+//@   property C12
+//@   safe
+//@   requires e != nil
+//@ func (vr *VersionRequest) Decode
+//@   property C12
+//@   safe
+//@   requires e != nil
+//@ func (vr *VersionRequest) Encode
+//@   property C12
+//@   safe
+//@   requires e != nil
+//@ func (vr *VersionResponse) Decode
+//@   property C12
+//@   safe
+//@   requires e != nil
+//@ func (vr *VersionResponse) Encode
+//@   property C12
+//@   safe
+//@   requires e != nil
+//@ func (vr *SetOptionsRequest) Decode
+//@   property C12
+//@   safe
+//@   requires e != nil
+//@ func (vr *SetOptionsRequest) Encode
+//@   property C12
+//@   safe
+//@   requires e != nil
+//@ func (vr *SetOptionsResponse) Decode
+//@   property C12
+//@   safe
+//@   requires e != nil
+//@ func (vr *SetOptionsResponse) Encode
+//@   property C12
+//@   safe
+//@   requires e != nil
+//@ func (vr *TestDownstreamEncoderRequest) Decode
+//@   property C12
+//@   safe
+//@   requires e != nil
+//@ func (vr *TestDownstreamEncoderRequest) Encode
+//@   property C12
+//@   safe
+//@   requires e != nil && vr.DownstreamEncoder != nil
+//@ func (vr *TestDownstreamEncoderResponse) Decode
+//@   property C12
+//@   safe
+//@   requires e != nil
+//@ func (vr *TestDownstreamEncoderResponse) Encode
+//@   property C12
+//@   safe
+//@   requires e != nil
+//@ func (vr *TestDownstreamFragmentSizeRequest) Decode
+//@   property C12
+//@   safe
+//@   requires e != nil
+//@ func (vr *TestDownstreamFragmentSizeRequest) Encode
+//@   property C12
+//@   safe
+//@   requires e != nil
+//@ func (vr *TestDownstreamFragmentSizeResponse) Decode
+//@   property C12
+//@   safe
+//@   requires e != nil
+//@ func (vr *TestDownstreamFragmentSizeResponse) Encode
+//@   property C12
+//@   safe
+//@   requires e != nil
+//@ func (vr *TestUpstreamEncoderRequest) Decode
+//@   property C12
+//@   safe
+//@   requires e != nil
+//@ func (vr *TestUpstreamEncoderRequest) Encode
+//@   property C12
+//@   safe
+//@   requires e != nil
+//@ func (vr *TestUpstreamEncoderResponse) Decode
+//@   property C12
+//@   safe
+//@   requires e != nil
+//@ func (vr *TestUpstreamEncoderResponse) Encode
+//@   property C12
+//@   safe
+//@   requires e != nil
+//@ func (vr *ErrorResponse) Decode
+//@   property C12
+//@   safe
+//@   requires e != nil
+//@ func (vr *ErrorResponse) Encode
+//@   property C12
+//@   safe
+//@   requires e != nil && vr.Err != nil
+
+//@ func (vr *SetOptionsRequest) readBool
+//@   property C12
+//@   safe
+//@   requires data != nil
+//@ func (vr *SetOptionsRequest) writeBool
+//@   property C12
+//@   safe
+//@   requires data != nil
+
+// ---- Command() accessors
+//@ func (vr *PacketRequest) Command
+//@   property C12
+//@   pure
+//@ func (vr *PacketResponse) Command
+//@   property C12
+//@   pure
+//@ func (vr *VersionRequest) Command
+//@   property C12
+//@   pure
+//@ func (vr *VersionResponse) Command
+//@   property C12
+//@   pure
+//@ func (vr *SetOptionsRequest) Command
+//@   property C12
+//@   pure
+//@ func (vr *SetOptionsResponse) Command
+//@   property C12
+//@   pure
+//@ func (vr *TestDownstreamEncoderRequest) Command
+//@   property C12
+//@   pure
+//@ func (vr *TestDownstreamEncoderResponse) Command
+//@   property C12
+//@   pure
+//@ func (vr *TestDownstreamFragmentSizeRequest) Command
+//@   property C12
+//@   pure
+//@ func (vr *TestDownstreamFragmentSizeResponse) Command
+//@   property C12
+//@   pure
+//@ func (vr *TestUpstreamEncoderRequest) Command
+//@   property C12
+//@   pure
+//@ func (vr *TestUpstreamEncoderResponse) Command
+//@   property C12
+//@   pure
+//@ func (vr *ErrorResponse) Command
+//@   property C12
+//@   pure
+
+// ---- request header
+//@ func randomChars
+//@   property C12, C09
+//@   safe
+//@   pure
+//@   ensures len(result) == 3
+//@ func EncodeRequestHeader
+//@   property C12, C09
+//@   safe
+//@   pure
+//@   ensures c.NeedsUserId ==> len(result) == 6
+//@   ensures !c.NeedsUserId ==> len(result) == 4
+//@   ensures len(result) > 0 && result[0] == c.Code
